@@ -40,7 +40,7 @@ FDRS = (0.0731, 0.1279, 0.2113)
 def budget(tier):
     if tier == "quick":
         return {"examples": 960, "shards": 16, "time_s": 60}
-    return {"examples": 6400, "shards": 16, "time_s": 900}
+    return {"examples": 51200, "shards": 16, "time_s": 1500}
 
 
 @st.composite
